@@ -200,7 +200,8 @@ CLAIMS = {
           "every fid object — valid, being created, or created afterwards — has been reported destroyed exactly once), "
           "never_destroyed_under_a_request (from the moment destroy() marks a fid no request holds it, and FidGet hands none out: "
           "dead_fid_is_not_handed_out), no_destroy_while_being_created, valid_fid_alive_while_open, refcount_is_owners, "
-          "fid_teardown_never_stuck; the three repaired behaviours (F-29, F-30, F-31) are theorems about the old regions "
+          "fid_teardown_never_stuck, retain_logged_late_is_a_schedule (the acceptor's one reordering is sound: a retain that read conn.done open "
+          "commutes with every event that does not concern its fid); the three repaired behaviours (F-29, F-30, F-31) are theorems about the old regions "
           "(stale_retain_leaks_a_fid, unpool_by_number_loses_a_valid_fid, close_destroys_under_a_request). Correspondence: disconnects with fids in every state and 0..4 requests executing; every log accepted by the model; "
           "oracle: ConnClosed once, every valid fid destroyed exactly once, goroutine census back to baseline, bystander untouched.",
   "note": TB + "ConnClosed accounting and goroutine/descriptor leaks are observed on the implementation, not proved (descriptors of the "
